@@ -23,6 +23,9 @@ CLAIMED = {
          "the mask v & ~0xffff is derived from Nat bitwise lemmas, not assumed.", "Nat.testBit mask lemma + omega; correspondence"),
  "C17": ("proof", "C17_comm, C17_sub, C17_units, C17_cancel, C17_assoc, C17_mono for all operands; C17_nsmul by induction on n (a*n equals the n-fold sum); C17_mul_div.", "closed forms of the kernels + omega + induction; correspondence of the kernels"),
  "C18": ("proof", "C18_shr (floor division by 2^r), C18_shl (exact when in range, never the opposite sign), C18_neg_count, C18_and for all x and all counts in [INT_MIN, 63].", "generic lemma on x*2^r mod 2^63 + omega; correspondence"),
+ "C13": ("proof", "Abacus algorithm: C13_abacus_acc/real/square/mono/zero/neg for ALL inputs 0 <= v < 2^48 and all negatives, by the loop invariant (induction on the digit position) "
+         "including absence of uint64 wrap-around; the result is exactly floor(sqrt(v*2^16)). std::sqrt algorithm: PARTIAL - the accuracy theorem over the IEEE model (C13_std_full) is stated, not proved; "
+         "that back-end is tied by bit-exact correspondence (perfect squares +-1, midpoints k^2+k, powers of two, stratified random) of the Lean IEEE-754 model with the hardware.", "loop invariant by induction + nlinarith/omega; correspondence on both back-ends"),
 }
 NA_DEFAULT = "check under construction in this round (the framework is built property by property); not a claim that the technique cannot apply"
 
